@@ -475,4 +475,85 @@ Section LockedObject.
       split; [exact H1|]. specialize (Hnp g Hg). unfold pending in Hnp.
       destruct (g_ret g) as [r|]; [|discriminate]. exists r. split; [reflexivity|exact H3].
   Qed.
+
+  (* ---------------------------------------------------------------------------------- *)
+  (* histories with PENDING calls: every reachable configuration, not only quiescent ones.
+     A call that has released the lock but not yet returned (Finished) has taken effect: it is
+     completed with the result it computed and a return stamp "now"; calls that are still
+     waiting for the lock or running their body are omitted.  The completed history is
+     linearizable.  (This is linearizability of an incomplete history: some completion of the
+     pending calls, and the omission of the others, yields a linearizable complete history.) *)
+  Definition g_rec_at (now : N) (g : gent) : @orec Op Res :=
+    mkrec (g_call g) (match g_ret g with Some r => r | None => now end) (g_op g) (g_res g).
+
+  Lemma legal_ext (f1 f2 : gent -> @orec Op Res) :
+    (forall g, o_op (f1 g) = o_op (f2 g) /\ o_res (f1 g) = o_res (f2 g)) ->
+    forall L s s', legal seq_spec s (map f1 L) s' -> legal seq_spec s (map f2 L) s'.
+  Proof.
+    intros E L. induction L as [|g L IH]; intros s s' H; simpl in *; inversion H; subst.
+    - constructor.
+    - destruct (E g) as [E1 E2]. econstructor; [rewrite <- E1, <- E2; eassumption|]. apply IH. assumption.
+  Qed.
+
+  Lemma filter_partition {A} (p : A -> bool) (l : list A) :
+    Permutation l (filter (fun x => negb (p x)) l ++ filter p l).
+  Proof.
+    induction l as [|a l IH]; simpl; [constructor|]. destruct (p a); simpl.
+    - eapply Permutation_trans; [apply perm_skip; exact IH|]. apply Permutation_middle.
+    - apply perm_skip. exact IH.
+  Qed.
+
+  Lemma sorted_rt_at now (L : list gent) :
+    StronglySorted (fun a b => g_lin a < g_lin b) L ->
+    (forall g, In g L -> g_call g < g_lin g /\ g_lin g < now /\
+                         match g_ret g with Some r => g_lin g < r | None => True end) ->
+    rt_ordered (map (g_rec_at now) L).
+  Proof.
+    induction 1 as [|a l Hs IH Ha]; intros Hall; simpl; [constructor|].
+    constructor.
+    - apply Forall_forall. intros x Hx. apply in_map_iff in Hx. destruct Hx as [b [<- Hb]].
+      rewrite Forall_forall in Ha. specialize (Ha b Hb).
+      destruct (Hall a (or_introl eq_refl)) as [Hca _].
+      destruct (Hall b (or_intror Hb)) as [_ [Hn Hr]].
+      unfold rt_ok, g_rec_at. simpl. destruct (g_ret b); lia.
+    - apply IH. intros g Hg. apply Hall. right; exact Hg.
+  Qed.
+
+  Theorem exclusive_linearizable_pending s0 P c :
+    reach (init_cfg s0 P) c ->
+    exists (ts : list nat) (compl : list (@orec Op Res)) l sb,
+      NoDup ts /\
+      Forall2 (fun t e => th c t = Finished (o_call e) (o_op e) (o_res e) /\ o_ret e = clk c) ts compl /\
+      linearization seq_spec s0 (done c ++ compl) l sb.
+  Proof.
+    intros Hr.
+    destruct (Inv_reach s0 _ _ (Inv_init s0 P) Hr) as [L [sb [Hleg [Hlock [Hst Hg]]]]].
+    destruct Hg as [Gfwd [Gbwd [Gnd [Gperm [Gsort Gtime]]]]].
+    set (now := clk c).
+    exists (map g_t (filter pending L)), (map (g_rec_at now) (filter pending L)),
+           (map (g_rec_at now) L), sb.
+    split; [exact Gnd|]. split; [|split; [|split]].
+    - assert (HF : forall F : list gent, (forall g, In g F -> In g L /\ pending g = true) ->
+                   Forall2 (fun t e => th c t = Finished (o_call e) (o_op e) (o_res e) /\ o_ret e = clk c)
+                           (map g_t F) (map (g_rec_at now) F)).
+      { induction F as [|g F IH]; intros Hin; simpl; [constructor|].
+        constructor; [|apply IH; intros x Hx; apply Hin; right; exact Hx].
+        destruct (Hin g (or_introl eq_refl)) as [Hi Hp]. split.
+        - unfold g_rec_at. simpl. apply Gfwd; assumption.
+        - unfold g_rec_at, pending in *. simpl. destruct (g_ret g); [discriminate|reflexivity]. }
+      apply HF. intros g Hg. apply filter_In in Hg. exact Hg.
+    - eapply Permutation_trans; [apply Permutation_map; apply (filter_partition pending L)|].
+      rewrite map_app. apply Permutation_app_tail. rewrite <- Gperm.
+      assert (E : forall F : list gent, (forall g, In g F -> pending g = false) ->
+                  map (g_rec_at now) F = map g_rec F).
+      { induction F as [|g F IH]; intros HF; simpl; [reflexivity|]. f_equal.
+        - specialize (HF g (or_introl eq_refl)). unfold g_rec_at, g_rec, pending in *.
+          destruct (g_ret g); [reflexivity|discriminate].
+        - apply IH. intros x Hx. apply HF. right; exact Hx. }
+      rewrite E; [reflexivity|]. intros g Hg. apply filter_In in Hg. destruct Hg as [_ Hg].
+      apply negb_true_iff in Hg. exact Hg.
+    - eapply legal_ext; [|exact Hleg]. intros g. split; reflexivity.
+    - apply sorted_rt_at; [exact Gsort|]. intros g Hg. destruct (Gtime g Hg) as [H1 [H2 H3]].
+      split; [exact H1|]. split; [exact H2|exact H3].
+  Qed.
 End LockedObject.
